@@ -10,8 +10,10 @@ import (
 	"testing"
 	"testing/iotest"
 
+	multiproof "github.com/crate-crypto/go-ipa"
 	"github.com/crate-crypto/go-ipa/banderwagon"
 	"github.com/crate-crypto/go-ipa/common"
+	"github.com/crate-crypto/go-ipa/ipa"
 	"pgregory.net/rapid"
 
 	"verif/harness/hx"
@@ -343,6 +345,114 @@ func evalC06(c c06Case, rec *hx.Rec) error {
 
 var c06Part = hx.NewPart("C06", "decode", genC06, evalC06)
 
+// ---- the group elements inside serialized proofs: sixteen (seventeen) untrusted encodings decoded by ONE Read call
+
+type c06ProofCase struct {
+	Kind   string   `json:"kind"` // ipa | multi
+	Points []string `json:"points"`
+	Class  string   `json:"class"`
+	Seed   uint64   `json:"seed"`
+}
+
+func genC06Proof(t *rapid.T) c06ProofCase {
+	c := c06ProofCase{Kind: rapid.SampledFrom([]string{"ipa", "multi"}).Draw(t, "kind"), Seed: rapid.Uint64().Draw(t, "seed")}
+	n := 16
+	if c.Kind == "multi" {
+		n = 17
+	}
+	// mostly valid points; zero, one, two or several of them replaced by one defect class (the same or different values)
+	nbad := rapid.SampledFrom([]int{0, 1, 2, 2, 2, 3, 4, 16}).Draw(t, "nbad")
+	cls := rapid.SampledFrom([]string{"nonsubgroup", "offcurve", "alias_x+p", "valid_neg", "y_near_half", "const"}).Draw(t, "badclass")
+	sameValue := rapid.Bool().Draw(t, "same_value")
+	for i := 0; i < n; i++ {
+		comp := hx.G.Compress(refPointFromSeed(c.Seed + uint64(i)))
+		c.Points = append(c.Points, hx.HexBytes(comp[:]))
+	}
+	for k := 0; k < nbad && k < n; k++ {
+		pos := rapid.IntRange(0, n-1).Draw(t, "pos")
+		seed := c.Seed + 1000
+		if !sameValue {
+			seed += uint64(k)
+		}
+		var b []byte
+		switch cls {
+		case "nonsubgroup":
+			b = be32any(findX(seed, true, false))
+		case "offcurve":
+			b = be32any(findX(seed, false, false))
+		case "alias_x+p":
+			x := new(big.Int).SetBytes(hx.BytesHex(c.Points[pos]))
+			b = be32any(x.Add(x, ref.P))
+		case "valid_neg":
+			x := new(big.Int).SetBytes(hx.BytesHex(c.Points[pos]))
+			b = be32any(x.Sub(ref.P, x).Mod(x, ref.P))
+		case "y_near_half":
+			b = be32any(c17Case{Mode: "point", Kind: "y_near_half", E: uint32(seed % 100000), Seed: seed % 4}.value())
+		default:
+			b = be32any(c06Consts[c06ConstNames[int(seed%uint64(len(c06ConstNames)))]])
+		}
+		c.Points[pos] = hx.HexBytes(b)
+	}
+	c.Class = fmt.Sprintf("%s x%d same=%v", cls, nbad, sameValue)
+	return c
+}
+
+func evalC06Proof(c c06ProofCase, rec *hx.Rec) error {
+	rec.Eval(1)
+	rec.Sample(c)
+	var in []byte
+	wantOK := true
+	nbad := 0
+	for _, p := range c.Points {
+		b := hx.BytesHex(p)
+		in = append(in, b...)
+		if _, err := hx.G.DecodeCompressed(b); err != nil {
+			wantOK = false
+			nbad++
+		}
+	}
+	in = append(in, ref.LE32(hx.ExpandFr(c.Seed, "c06sc", 0))...)
+	var pts []banderwagon.Element
+	var ierr error
+	if perr := hx.Try(func() {
+		if c.Kind == "ipa" {
+			var pr ipa.IPAProof
+			ierr = pr.Read(bytes.NewReader(in))
+			pts = append(append(pts, pr.L...), pr.R...)
+		} else {
+			var pr multiproof.MultiProof
+			ierr = pr.Read(bytes.NewReader(in))
+			pts = append(append(append(pts, pr.D), pr.IPA.L...), pr.IPA.R...)
+		}
+	}); perr != nil {
+		return fmt.Errorf("%s proof Read: %w", c.Kind, perr)
+	}
+	rec.Label("proofpoints:"+c.Kind, fmt.Sprintf("proofpoints:invalid=%d", nbad))
+	if (ierr == nil) != wantOK {
+		return fmt.Errorf("%s proof Read accepted=%v (err=%v) although %d of its %d point encodings are not canonical subgroup encodings (%s)", c.Kind, ierr == nil, ierr, nbad, len(c.Points), c.Class)
+	}
+	rec.NT("proof", fmt.Sprint(c))
+	if !wantOK {
+		return nil
+	}
+	if len(pts) != len(c.Points) {
+		return fmt.Errorf("%s proof Read returned %d points for %d encodings", c.Kind, len(pts), len(c.Points))
+	}
+	for i := range pts {
+		got := hx.FromImpl(&pts[i])
+		if !hx.G.IsValid(got) || !hx.G.InSubgroup(got) {
+			return fmt.Errorf("%s proof Read: decoded point %d is not an element of the prime-order group", c.Kind, i)
+		}
+		re := pts[i].Bytes()
+		if want := hx.BytesHex(c.Points[i]); !bytes.Equal(re[:], want) {
+			return fmt.Errorf("%s proof Read: point %d decoded from %x re-encodes to %x", c.Kind, i, want, re)
+		}
+	}
+	return nil
+}
+
+var c06Proof = hx.NewPart("C06", "proofpoints", genC06Proof, evalC06Proof)
+
 func TestC06(t *testing.T) {
 	s := hx.Start(t, "C06")
 	defer s.Finish()
@@ -367,5 +477,6 @@ func TestC06(t *testing.T) {
 		}
 	}
 	c06Part.Run(s, hx.PerShard(hx.Pick(240000, 4000000)))
+	c06Proof.Run(s, hx.PerShard(hx.Pick(8000, 160000)))
 	c06Part.RunConcurrent(s, 8, hx.Pick(1500, 20000))
 }
